@@ -36,6 +36,8 @@ rev('C08', 'revert_9c4d95c_Query_repr_prints_Equal_pre_post_filters.diff', 'F3b 
 rev('C14', 'revert_42e2c43_do_not_push_wherefactors_below_outer_joins_as_table_ro.diff', 'K9 where factors below outer joins')
 rev('C07', 'revert_9f75569_Referencefeatures_handles_unnamed_features_of_the_refe.diff', 'Reference.features c.name')
 rev('C17', 'revert_22c321d_keep_the_lateststrategy_refresher_alive_when_a_refresh.diff', 'Latest refresher dies')
+rev('C14', 'revert_4843bf6_selfjoin_alias_filter.diff', 'row filter inherited by aliased scan')
+rev('C08', 'revert_7596ab3_compound_kind_pickling.diff', 'compound kinds without __getnewargs__')
 
 COMPILER = 'forml/flow/_code/compiler.py'
 # ---- C01 ------------------------------------------------------------------------------------------------------------
